@@ -190,23 +190,16 @@ def renderWorld (le : Bool) (w : World) : ProcFs where
 def kinds : List String :=
   ["inet", "inet4", "inet6", "tcp", "tcp4", "tcp6", "udp", "udp4", "udp6", "unix", "all"]
 
-/-- the documented table: which sockets a kind asks for (TCP = inet stream, UDP = inet
-    datagram, UNIX = every type of AF_UNIX socket) -/
+/-- the documented table, read per socket class: the kinds that ask for it (TCP = inet stream,
+    UDP = inet datagram, UNIX = every type of AF_UNIX socket; "inet" = IPv4 and IPv6, "all" = the
+    sum of all the possible families and protocols) -/
 def kindSelects (kind : String) (f : Fam) (typ : Nat) : Bool :=
-  let tcp := typ == 1
-  let udp := typ == 2
-  if kind = "inet" then f != .unix && (tcp || udp)
-  else if kind = "inet4" then f == .inet4 && (tcp || udp)
-  else if kind = "inet6" then f == .inet6 && (tcp || udp)
-  else if kind = "tcp" then f != .unix && tcp
-  else if kind = "tcp4" then f == .inet4 && tcp
-  else if kind = "tcp6" then f == .inet6 && tcp
-  else if kind = "udp" then f != .unix && udp
-  else if kind = "udp4" then f == .inet4 && udp
-  else if kind = "udp6" then f == .inet6 && udp
-  else if kind = "unix" then f == .unix
-  else if kind = "all" then f == .unix || tcp || udp
-  else false
+  match f with
+  | .unix => ["unix", "all"].contains kind
+  | .inet4 => (typ == 1 && ["tcp4", "tcp", "inet4", "inet", "all"].contains kind)
+              || (typ == 2 && ["udp4", "udp", "inet4", "inet", "all"].contains kind)
+  | .inet6 => (typ == 1 && ["tcp6", "tcp", "inet6", "inet", "all"].contains kind)
+              || (typ == 2 && ["udp6", "udp", "inet6", "inet", "all"].contains kind)
 
 /-- names of the TCP states (include/net/tcp_states.h ↔ psutil's documented CONN_* constants) -/
 def stateName : Nat → Option String
